@@ -79,7 +79,7 @@ func load(dir, path string) *pkgInfo {
 			files = append(files, p.Files[n])
 		}
 	}
-	info := &types.Info{Defs: map[*ast.Ident]types.Object{}, Uses: map[*ast.Ident]types.Object{}, Types: map[ast.Expr]types.TypeAndValue{}}
+	info := &types.Info{Defs: map[*ast.Ident]types.Object{}, Uses: map[*ast.Ident]types.Object{}, Types: map[ast.Expr]types.TypeAndValue{}, Selections: map[*ast.SelectorExpr]*types.Selection{}}
 	conf := types.Config{Importer: importer.ForCompiler(fset, "source", nil), Error: func(error) {}}
 	pkg, _ := conf.Check(path, fset, files, info)
 	return &pkgInfo{fset: fset, files: files, info: info, pkg: pkg}
@@ -378,6 +378,7 @@ func toUpperTable() string {
 func main() {
 	repo := flag.String("repo", "/repo", "repository root")
 	dst := flag.String("o", "", "output file")
+	trDst := flag.String("translated", "", "output file of the translator (default: Translated.lean next to -o)")
 	flag.Parse()
 	st := load(filepath.Join(*repo, "stack"), "github.com/maruel/panicparse/v2/stack")
 	in := load(filepath.Join(*repo, "internal"), "github.com/maruel/panicparse/v2/internal")
@@ -547,6 +548,16 @@ func main() {
 	if *dst == "" {
 		os.Stdout.Write(out.Bytes())
 		return
+	}
+	// the translator's output (tie A, second half): written only when it changed
+	if *trDst == "" {
+		*trDst = filepath.Join(filepath.Dir(*dst), "Translated.lean")
+	}
+	tr := []byte(st.translate())
+	if old, err := os.ReadFile(*trDst); err != nil || !bytes.Equal(old, tr) {
+		if err := os.WriteFile(*trDst, tr, 0o644); err != nil {
+			die("%v", err)
+		}
 	}
 	if old, err := os.ReadFile(*dst); err == nil && bytes.Equal(old, out.Bytes()) {
 		return
